@@ -139,14 +139,21 @@ def kit_s_part(res):
     sites = kit_e.kit_s_split_obligations(common.REPO)
     if not sites:
         raise common.CheckerDefect('no line-cutting obligations generated')
-    res.obligations += len(sites)
-    bad = [t for t, ok in sites if not ok]
-    res.discharged += len(sites) - len(bad)
-    res.backends['call-shape scan(syntactic)'] = res.backends.get('call-shape scan(syntactic)', 0) + len(sites) - len(bad)
-    res.functions['<line cutting of diff_strings_linewise / flatten_list_of_string_diff>'] = 'proved' if not bad else 'failed'
-    for t in bad[:3]:
-        res.violation('string interface obligation fails: %s' % t, {'obligation': 'line-cutting agreement', 'kind': 'failed-shape-obligation', 'text': t},
-                      no_input=True)
+    name = '<line cutting of diff_strings_linewise / flatten_list_of_string_diff>'
+    unrecognised = [t for t, ok, kind in sites if not ok and kind == 'shape']
+    if unrecognised:
+        res.functions[name] = 'out-of-subset'
+        res.notes.append('string interface: code not in the recognised form (%s) -- no agreement statement for this run, the bounded round trip decides'
+                         % '; '.join(unrecognised))
+    else:
+        res.obligations += len(sites)
+        bad = [t for t, ok, kind in sites if not ok]
+        res.discharged += len(sites) - len(bad)
+        res.backends['call-shape scan(syntactic)'] = res.backends.get('call-shape scan(syntactic)', 0) + len(sites) - len(bad)
+        res.functions[name] = 'proved' if not bad else 'failed'
+        for t in bad[:3]:
+            res.violation('string interface obligation fails: %s' % t, {'obligation': 'line-cutting agreement', 'kind': 'failed-shape-obligation', 'text': t},
+                          no_input=True)
     for q, table, posts, dr in kit_e.KIT_S_JOBS:
         failed = common.prove_paths(res, q, table, posts, default_raises=dr)
         if failed:
